@@ -21,6 +21,7 @@
 package compiler
 
 import (
+	"github.com/gontainer/gontainer-helpers/v3/grouperror"
 	"github.com/gontainer/gontainer/internal/pkg/input"
 	"github.com/gontainer/gontainer/internal/pkg/output"
 )
@@ -37,11 +38,13 @@ func New(steps ...Step) *Compiler {
 	return &Compiler{steps: steps}
 }
 
+// Compile executes all steps and reports the errors of all of them,
+// otherwise an error in one step (e.g. an invalid getter) would hide the errors
+// of the following steps (e.g. an invalid argument of another service).
 func (c Compiler) Compile(i input.Input) (o output.Output, _ error) {
+	errs := make([]error, 0, len(c.steps))
 	for _, s := range c.steps {
-		if err := s.Process(i, &o); err != nil {
-			return o, err
-		}
+		errs = append(errs, s.Process(i, &o))
 	}
-	return o, nil
+	return o, grouperror.Join(errs...)
 }
